@@ -8,7 +8,7 @@ mkdir -p /verif/sim/target/seeded_replays
 res=/verif/seeded/$name/result.txt
 : > $res
 for c in "$@"; do
-  out=$(VERIF_NO_EVIDENCE=1 ./check $c ${TIER:-quick} 2>&1)
+  out=$(VERIF_NO_EVIDENCE=1 VERIF_WORKER_MAX_VIOL=${VERIF_WORKER_MAX_VIOL:-2} ./check $c ${TIER:-quick} 2>&1)
   echo "$out" | grep -E "^(VIOLATION|KNOWN-FINDING|HARNESS-ERROR|C[0-9]+ )" | sed "s/^/[$c] /" | tee -a $res
 done
 git -C /repo checkout -- .
